@@ -61,6 +61,8 @@ def base_scenario(cls, rng, k=0, nx=2, nyh=3, shape=None):
                 sref="wetted" if (k + i) % 2 == 0 else "projected",
                 klam=0.05,
                 toc=0.12,
+                CL0=0.02 * (i + 1) if k % 2 else 0.0,  # lift / drag at zero angle of attack that the panel method does not see
+                CD0=0.01 + 0.004 * i,
             )
         )
     flow = dict(
@@ -85,8 +87,8 @@ def model_of(sc):
             "symmetry": bool(s["sym"]),
             "S_ref_type": s["sref"],
             "mesh": np.array(s["mesh"], dtype=float),
-            "CL0": 0.0,
-            "CD0": 0.01,
+            "CL0": float(s.get("CL0", 0.0)),
+            "CD0": float(s.get("CD0", 0.01)),
             "k_lam": s["klam"],
             "t_over_c_cp": np.array([s["toc"]]),
             "c_max_t": 0.303,
